@@ -689,8 +689,8 @@ def run(ctx):
     ctx.rule = ("one real UDSClient.request() per case on the scripted transport; distinct = distinct (configuration, "
                 "event script as consumed; tree cases are distinct by construction, sampled ones by seed); non-trivial = the "
                 "client performed at least two reads, i.e. at least one fault / busy / pending event preceded the end")
-    depth = ctx.pick(5, 7)
-    depth_override = ctx.pick(4, 5)
+    depth = ctx.pick(6, 8)
+    depth_override = ctx.pick(5, 6)
     tasks = []
     # 1. exhaustive trees: every script up to `depth` events, then silence; max_retry 0..3
     for cm in (0, 1, 2, 3):
@@ -723,7 +723,7 @@ def run(ctx):
     ctx.exhaustive_parts.append("pending runs of 117..121 replies ended by every event kind; silence runs of limit-2..limit+1 "
                                 "polls for limits 40 / 41 / 50 / 60; pendings interleaved with 1 / 20 / 39 silent polls up to the read bound")
     # 4. seeded random configurations and scripts
-    n_rand = ctx.pick(1500, 20000)
+    n_rand = ctx.pick(3000, 60000)
     rc = [random_case(ctx.rng, True) for _ in range(n_rand)]
     for i in range(0, len(rc), 100):
         tasks.append(("list", (str(driver), rc[i:i + 100])))
@@ -789,7 +789,7 @@ MANIFEST = {
                    "Spec/ClientSpec.Implied, no final reply is ever read past, backoff sleeps are retry_wait*2^i. Literal limits "
                    "(120 pendings, 0.5 s poll, 20 s floor, 0.2 s backoff) regenerated from client.py with an agreement theorem. "
                    "Tied to the code by running the real UDSClient.request() on a scripted transport under virtual time: every "
-                   "event script up to length 5 (quick) / 7 (thorough) x max_retry 0..3, configuration overrides, long runs "
+                   "event script up to length 6 (quick) / 8 (thorough) x max_retry 0..3, configuration overrides, long runs "
                    "across the pending and silence limits; call sequence, timestamps, outcome and __cause__ compared."),
     "level_note": ("Trusted: Lean kernel (propext, Quot.sound, Classical.choice), asyncio timeouts/sleep under the virtual-time "
                    "loop, the fake transport, the harness. Faults are injected at read(); write()/reconnect() failures, replies "
